@@ -26,6 +26,7 @@ pub fn parse_query_string(input: &str) -> Result<Request, ParseRequestError> {
     struct RequestSerde {
         #[serde(default)]
         pub query: String,
+        #[serde(rename = "operationName")]
         pub operation_name: Option<String>,
         pub variables: Option<String>,
         pub extensions: Option<String>,
